@@ -306,6 +306,21 @@ def run(db, tier):
                 ok_a = a_txt == "LowerArgs::Known{0: select_diff_for_lower_args(%s.Instr.0.args.Known.0, unwrap(next(into_iter(%s))))}" % (STM, CASE)
                 rep.check(ok_a, "R-SWITCH-MASK", "elaborate|arguments of the case's first difficulty", f.loc, "arguments are selected at the first difficulty of the case mask",
                           "the arguments of a per-case copy are %s" % a_txt)
+    # nested switches (finding F27): the explicit difficulties of the statement include those of switches nested in cases
+    from facts import hir_walk as _hw
+    ed = db.fn("llir::lower::elaborate_diff_switches")
+    callees = set(t.get("f") for g in [ed] + list(db.children.get(ed.id, [])) for _, t in g.calls())
+    helpers = [c for c in callees if c and c.startswith("llir::lower::") and c in db.fns and c != ed.id]
+    nested_ok = False
+    for h in helpers:
+        hf = db.fns[h]
+        hc = [t.get("f") for g in [hf] + list(db.children.get(hf.id, [])) for _, t in g.calls()]
+        if any((c or "").endswith("DiffSwitchMeta::update") for c in hc) and h in hc:
+            rep.fn(hf)
+            nested_ok = True
+    rep.check(nested_ok, "R-SWITCH-MASK", "elaborate|nested switches are accounted for", ed.loc,
+              "the explicit-difficulty collector updates the meta for a switch and recurses into its cases",
+              "elaborate_diff_switches collects explicit difficulties from top-level switch arguments only: `((1:2:3:4)::5:)` gives difficulty 1 the value of difficulty 0")
     f = db.fn("diff_switch_utils::DiffSwitchMeta::update")
     rep.fn(f)
     got = distinct_effects(S.fn_paths(db, f.id, effect_calls=("BitSet32::insert",)))
